@@ -15,7 +15,7 @@ from props.c17 import (Unrepresentable, msg_lit, addr_lit, NumProxy, Md5Proxy, n
 from props import c18 as U
 
 PROPS_FILES = ["props/C15.v"]
-ALWAYS_SEARCH = False
+ALWAYS_SEARCH = True
 RULE = ("messages = real decoder output for every definition of canboat.json x payload classes (all-zero, all-ones = "
         "absent, random incl. longer variable-length payloads, one field at a boundary value, NaN in the FLOAT fields), "
         "with and without a claimed source identity, with and without network map / unit preferences; observed = "
@@ -445,6 +445,18 @@ def search(ctx):
                  (U.random_prefs(rng) if rng.random() < 0.3 else {}))
         emit(_check_dump({"kind": "dump", "dump_pgns": dump_pgns, "net": rng.random() < 0.5, "lines": lines,
                           "prefs": {k.name: v for k, v in prefs.items()}}))
+    # non-ASCII text in dumped messages (STRING_LAU fields, UTF-16 and UTF-8 coded): the dump lines must be exactly
+    # the JSON of the returned messages, whatever characters it contains
+    uni = ["2021-01-30-20:43:21.684,6,126998,1,255,19,07,01,68,65,6C,6C,6F,0c,00,77,00,F3,00,72,00,6C,00,64,00",
+           "2021-01-30-20:43:21.684,6,126998,2,255,%d,%s" % (2 + 2 + len("Señor Müller \u05e9 \u03a9 \u4e2d".encode("utf-16-le")) + 2 + 2,
+               ",".join("%02x" % b for b in (bytes([2 + len("Señor Müller \u05e9 \u03a9 \u4e2d".encode("utf-16-le")), 0])
+                                              + "Señor Müller \u05e9 \u03a9 \u4e2d".encode("utf-16-le") + bytes([2, 1, 2, 1])))),
+           "2021-01-30-20:43:21.684,6,126998,3,255,%d,%s" % (2 + len("wórld \U0001f600".encode("utf-8")) + 4,
+               ",".join("%02x" % b for b in (bytes([2 + len("wórld \U0001f600".encode("utf-8")), 1])
+                                              + "wórld \U0001f600".encode("utf-8") + bytes([2, 1, 2, 1])))),
+           "2020-01-01-00:00:00.000,2,127250,1,255,8,01,10,27,ff,7f,ff,7f,fd"]
+    for dp in ([], [126998], ["configurationInformation"], [127250, "CONFIGURATIONinformation"]):
+        emit(_check_dump({"kind": "dump", "dump_pgns": dp, "net": False, "lines": uni, "prefs": {}}))
     # mixed filters built from what the history really returns: one message kind listed by number, ANOTHER by id
     # (any letter case) — each must be dumped
     for it in range(ctx.n(12, 100)):
